@@ -1,7 +1,7 @@
 //! C07 — per-backend kernels stay in bounds and terminate for every length and alignment.
 
 use crate::all_elems;
-use crate::elem::{Elem, Kind};
+use crate::elem::Elem;
 use crate::kern::{place_salt, VecCall};
 use crate::mem::{Ctx, Job, Place, Tier};
 use crate::oracle::{check_call, CheckOpts};
@@ -29,7 +29,7 @@ fn one_target<T: Elem>(ctx: &mut Ctx, t: Target<T>) {
     let gen = |rng: &mut Rng| -> T {
         if int_div {
             vals::nonzero(rng, |r| vals::random_bits::<T>(r, false))
-        } else if T::FLOAT {
+        } else if T::FLOAT || t.r.op != crate::elem::Op::Cosine {
             vals::random_bits::<T>(rng, false)
         } else {
             // small values keep integer cosine away from its (legitimate) division by zero
@@ -41,54 +41,63 @@ fn one_target<T: Elem>(ctx: &mut Ctx, t: Target<T>) {
     let mut pool_b: Vec<T> = (0..top).map(|_| gen(&mut rng)).collect();
     let mut value = gen(&mut rng);
     let mut run = Run::new(ctx, t, top);
-    run.opts = CheckOpts { values: false, skip_float_reductions: false, panics_ok: true };
+    run.opts = CheckOpts {
+        values: false,
+        skip_float_reductions: false,
+        panics_ok: true,
+    };
     let two = kind_uses_b(t.r.kind());
-    let _ = Kind::Map2;
-    let seed_k = rng.usize_below(nk);
     for round in 0..rounds {
-    if round > 0 {
-        pool_a = (0..top).map(|_| gen(&mut rng)).collect();
-        pool_b = (0..top).map(|_| gen(&mut rng)).collect();
-        value = gen(&mut rng);
-    }
-    for len in 0..=top {
-        if len % 16 == 0 && run.ctx.out_of_time() {
-            break;
+        if round > 0 {
+            pool_a = (0..top).map(|_| gen(&mut rng)).collect();
+            pool_b = (0..top).map(|_| gen(&mut rng)).collect();
+            value = gen(&mut rng);
         }
-        let mut places: Vec<[Place; 3]> = vec![[Place::End; 3], [Place::Start; 3]];
-        let _ = seed_k;
-        for k in 0..nk {
-            let ka = (k * align) as u8;
-            let kb = (((k * 7 + 3 + len) % nk) * align) as u8;
-            let kr = (((k * 11 + 5 + 2 * len) % nk) * align) as u8;
-            places.push([Place::AlignHi(ka), Place::AlignHi(kb), Place::AlignHi(kr)]);
-            places.push([Place::AlignLo(ka), Place::AlignLo(kb), Place::AlignLo(kr)]);
-            if tier == Tier::Thorough {
-                // same alignment on all three, mixed hi/lo, and every slice at alignment k in turn
-                places.push([Place::AlignHi(ka), Place::AlignHi(ka), Place::AlignHi(ka)]);
-                places.push([Place::AlignLo(ka), Place::AlignLo(ka), Place::AlignLo(ka)]);
-                places.push([Place::AlignLo(ka), Place::AlignHi(kb), Place::AlignLo(kr)]);
-                places.push([Place::AlignHi(kb), Place::AlignHi(ka), Place::AlignHi(kr)]);
-                places.push([Place::AlignHi(kr), Place::AlignHi(kb), Place::AlignHi(ka)]);
-                places.push([Place::End, Place::AlignHi(ka), Place::Start]);
+        for len in 0..=top {
+            if len % 16 == 0 && run.ctx.out_of_time() {
+                break;
+            }
+            let mut places: Vec<[Place; 3]> = vec![[Place::End; 3], [Place::Start; 3]];
+            for k in 0..nk {
+                let ka = (k * align) as u8;
+                let kb = (((k * 7 + 3 + len) % nk) * align) as u8;
+                let kr = (((k * 11 + 5 + 2 * len) % nk) * align) as u8;
+                places.push([Place::AlignHi(ka), Place::AlignHi(kb), Place::AlignHi(kr)]);
+                places.push([Place::AlignLo(ka), Place::AlignLo(kb), Place::AlignLo(kr)]);
+                if tier == Tier::Thorough {
+                    // same alignment on all three, mixed hi/lo, and every slice at alignment k in turn
+                    places.push([Place::AlignHi(ka), Place::AlignHi(ka), Place::AlignHi(ka)]);
+                    places.push([Place::AlignLo(ka), Place::AlignLo(ka), Place::AlignLo(ka)]);
+                    places.push([Place::AlignLo(ka), Place::AlignHi(kb), Place::AlignLo(kr)]);
+                    places.push([Place::AlignHi(kb), Place::AlignHi(ka), Place::AlignHi(kr)]);
+                    places.push([Place::AlignHi(kr), Place::AlignHi(kb), Place::AlignHi(ka)]);
+                    places.push([Place::End, Place::AlignHi(ka), Place::Start]);
+                }
+            }
+            for place in places {
+                let mut c: VecCall<T> = t.call().with_data(
+                    value,
+                    pool_a[..len].to_vec(),
+                    if two { pool_b[..len].to_vec() } else { Vec::new() },
+                );
+                c.place = place;
+                c.salt = place_salt(&place);
+                run.tally.note_len(len);
+                let (ar, opts) = (&mut run.ar, run.opts);
+                run.ctx.run_case(&c, len > 0, &mut |c| check_call(c, ar, opts));
             }
         }
-        for place in places {
-            let mut c: VecCall<T> = t.call().with_data(
-                value,
-                pool_a[..len].to_vec(),
-                if two { pool_b[..len].to_vec() } else { Vec::new() },
-            );
-            c.place = place;
-            c.salt = place_salt(&place);
-            run.tally.note_len(len);
-            let (ar, opts) = (&mut run.ar, run.opts);
-            run.ctx.run_case(&c, len > 0, &mut |c| check_call(c, ar, opts));
-        }
-    }
     }
     if run.ctx.p.samples.is_empty() {
-        let mut c: VecCall<T> = t.call().with_data(value, pool_a[..3.min(top)].to_vec(), if two { pool_b[..3.min(top)].to_vec() } else { Vec::new() });
+        let mut c: VecCall<T> = t.call().with_data(
+            value,
+            pool_a[..3.min(top)].to_vec(),
+            if two {
+                pool_b[..3.min(top)].to_vec()
+            } else {
+                Vec::new()
+            },
+        );
         c.place = [Place::AlignHi(align as u8), Place::AlignLo(0), Place::End];
         sample(run.ctx, &c);
     }
